@@ -391,3 +391,94 @@ fn c12_jpeg_box_map_small_grammar() {
     println!("VERIF-B-SAMPLE violation classes this run: {:?}", counts);
     println!("VERIF-B unit=png_io test=c12_jpeg_box_map_small_grammar evaluations={evals} nontrivial={nontrivial} exhaustive=true domain=SOI + 0..=4 header segments over 7 kinds (APP0, APP1, two C2PA APP11 segments, a foreign APP11 JP segment, DQT, COM) x with / without SOF+SOS+scan+EOI x 0..=2 trailing bytes");
 }
+
+
+// GIF grammar: header + logical screen descriptor, up to 3 blocks over 5 kinds (application extension, C2PA
+// application extension, comment extension, graphic control extension, image descriptor with data sub-blocks),
+// optional trailer, 0..=2 trailing bytes; same contract
+#[test]
+fn c12_gif_box_map_small_grammar() {
+    use crate::jumbf_io::get_assetio_handler;
+    let Some(h) = get_assetio_handler("gif") else { return };
+    let Some(bh) = h.asset_box_hash_ref() else { return };
+    let sub = |d: &[u8]| -> Vec<u8> {
+        let mut v = vec![d.len() as u8];
+        v.extend_from_slice(d);
+        v
+    };
+    let mut app = vec![0x21u8, 0xff, 0x0b];
+    app.extend_from_slice(b"NETSCAPE2.0");
+    app.extend(sub(&[1, 0, 0]));
+    app.push(0);
+    let mut c2pa = vec![0x21u8, 0xff, 0x0b];
+    c2pa.extend_from_slice(b"C2PA_GIF");
+    c2pa.extend_from_slice(&[0x01, 0x00, 0x00]);
+    c2pa.extend(sub(&[9, 9, 9, 9]));
+    c2pa.push(0);
+    let mut com = vec![0x21u8, 0xfe];
+    com.extend(sub(b"hi"));
+    com.push(0);
+    let gce = vec![0x21u8, 0xf9, 0x04, 0, 0, 0, 0, 0];
+    let mut img = vec![0x2cu8, 0, 0, 0, 0, 1, 0, 1, 0, 0, 2];
+    img.extend(sub(&[0x4c, 0x01]));
+    img.push(0);
+    let kinds: Vec<(&str, Vec<u8>)> = vec![("app", app), ("c2pa", c2pa), ("comment", com), ("gce", gce), ("image", img)];
+    let mut evals = 0usize;
+    let mut nontrivial = 0usize;
+    let mut counts: std::collections::BTreeMap<String, usize> = std::collections::BTreeMap::new();
+    let mut seqs: Vec<Vec<usize>> = vec![vec![]];
+    for _ in 0..3 {
+        let mut next = Vec::new();
+        for s in &seqs {
+            for k in 0..kinds.len() {
+                let mut s2 = s.clone();
+                s2.push(k);
+                next.push(s2);
+            }
+        }
+        seqs.extend(next);
+        seqs.sort();
+        seqs.dedup();
+    }
+    for s in &seqs {
+        for trailer in [true, false] {
+            for trailing in 0..=2usize {
+                let mut f = b"GIF89a".to_vec();
+                f.extend_from_slice(&[1, 0, 1, 0, 0, 0, 0]);
+                for k in s {
+                    f.extend_from_slice(&kinds[*k].1);
+                }
+                if trailer {
+                    f.push(0x3b);
+                }
+                f.extend(std::iter::repeat(0x55u8).take(trailing));
+                evals += 1;
+                let mut cur = Cursor::new(f.clone());
+                let got = std::panic::catch_unwind(std::panic::AssertUnwindSafe(|| bh.get_box_map(&mut cur)));
+                let key: Option<String> = match got {
+                    Err(_) => Some("box_map.gif.panic".to_string()),
+                    Ok(Err(_)) => None,
+                    Ok(Ok(boxes)) => {
+                        nontrivial += 1;
+                        if s.len() == 1 && s[0] == 4 && trailer && trailing == 0 {
+                            println!("VERIF-B-SAMPLE one-image GIF ({} bytes) box map: {:?}", f.len(), boxes.iter().map(|b| (b.names[0].clone(), b.range_start, b.range_len)).collect::<Vec<_>>());
+                        }
+                        match box_map_contract(&boxes, f.len() as u64) {
+                            Ok(()) => None,
+                            Err(c) => Some(format!("box_map.gif.{c}")),
+                        }
+                    }
+                };
+                if let Some(k) = key {
+                    let c = counts.entry(k.clone()).or_insert(0);
+                    *c += 1;
+                    if *c <= 3 {
+                        println!("VERIF-B-VIOLATION key={k} input=blocks={:?} trailer={trailer} trailing={trailing}", s.iter().map(|k| kinds[*k].0).collect::<Vec<_>>());
+                    }
+                }
+            }
+        }
+    }
+    println!("VERIF-B-SAMPLE violation classes this run: {:?}", counts);
+    println!("VERIF-B unit=png_io test=c12_gif_box_map_small_grammar evaluations={evals} nontrivial={nontrivial} exhaustive=true domain=GIF89a header + 0..=3 blocks over {{application ext, C2PA application ext, comment ext, graphic control ext, image}} x with / without trailer x 0..=2 trailing bytes");
+}
